@@ -83,7 +83,7 @@ func Parallel(r *evid.Run, units int, mk func(w *Worker) func(unit int)) {
 					r.NotExhaustive(fmt.Sprintf("internal deadline reached at unit %d/%d", u, units))
 					return
 				}
-				f(u)
+				runUnit(r, w, f, u)
 				w.Beat()
 			}
 		}(ws[i])
@@ -264,4 +264,22 @@ func ByteSyms(s string) [][]byte {
 		out[i] = []byte{s[i]}
 	}
 	return out
+}
+
+// runUnit executes one unit; a panic escaping the check code (normally a library panic on a path the
+// check did not wrap) is reported as a violation of the running property instead of crashing the run.
+func runUnit(r *evid.Run, w *Worker, f func(int), u int) {
+	defer func() {
+		if p := recover(); p != nil {
+			var desc any = "unknown case"
+			if w.Describe != nil {
+				func() {
+					defer func() { recover() }()
+					desc = w.Describe()
+				}()
+			}
+			r.Violation(fmt.Sprintf("panic|%v|%s", p, mustJSON(desc)), fmt.Sprintf("panic while executing case: %v", p), desc, nil)
+		}
+	}()
+	f(u)
 }
